@@ -69,6 +69,13 @@ func (m *Machine) global(g *ssa.Global) *Value {
 	return p
 }
 
+// standard-library packages whose package-level tables are needed when their
+// code is interpreted (pure data initialisers)
+var lazyInitStd = map[string]bool{
+	"strings": true, "bytes": true, "unicode": true, "unicode/utf8": true, "strconv": true,
+	"encoding/base64": true, "encoding/hex": true, "encoding/binary": true, "sort": true, "path": true,
+}
+
 // lazyInit runs the package-level initialisers of a package of the code under
 // test (module github.com/free5gc/chf, logger excluded) the first time one
 // of its package-level variables is touched on a path, so that tables and
@@ -78,7 +85,7 @@ func (m *Machine) lazyInit(p *ssa.Package) {
 		return
 	}
 	path := p.Pkg.Path()
-	if !strings.HasPrefix(path, "github.com/free5gc/chf/") || strings.HasSuffix(path, "/internal/logger") {
+	if !(strings.HasPrefix(path, "github.com/free5gc/chf/") && !strings.HasSuffix(path, "/internal/logger")) && !lazyInitStd[path] {
 		return
 	}
 	if m.inited == nil {
